@@ -313,6 +313,21 @@ static void tok_digest_dnsrec(app_tok_t *t, const ares_dns_record_t *rec)
 
 /* ------------------------------------------------------------------ callbacks */
 static void app_set_servers_now(int arg, int quiescent);
+/* ares_cancel() called from inside a completion callback: requests that are in the middle of a step of their own further
+ * up the stack (an address lookup between its two questions, a query being moved off a closing connection) can only be
+ * completed once control is back in that step - after ares_cancel() returned, before the outermost library call does.
+ * What was outstanding at such a cancel is therefore checked when the outermost call returns. */
+static uint8_t app_cancel_was_pending[APP_MAXTOK];
+static int     app_cancel_check_pending;
+static void    app_outermost_return(void)
+{
+  if (app_cancel_check_pending && app_in_process == 0 && app_in_start == 0 && app_in_cancel == 0 && app_in_destroy == 0) {
+    app_cancel_check_pending = 0;
+    mon_after_cancel(app_cancel_was_pending);
+    memset(app_cancel_was_pending, 0, sizeof(app_cancel_was_pending));
+  }
+}
+
 static int app_slow_cb; /* profile hostile-slowcb: completion callbacks take their time (the clock moves while they run) */
 static void app_reentrant(app_tok_t *t)
 {
@@ -369,7 +384,10 @@ static void app_reentrant(app_tok_t *t)
         app_in_cancel++;
         ares_cancel(app_channel);
         app_in_cancel--;
-        mon_after_cancel(was);
+        for (i = 0; i < app_ntok; i++) {
+          app_cancel_was_pending[i] |= was[i];
+        }
+        app_cancel_check_pending = 1;
       }
       break;
     case RA_SETSERVERS:
@@ -708,6 +726,7 @@ static void app_start_token(int ti)
       break;
   }
   app_in_start--;
+  app_outermost_return();
   t->api_returned = 1;
   if (app_cb_depth == 0) {
     mon_quiescent("start");
@@ -1124,6 +1143,7 @@ static int app_process(int only_timeouts, int max_events)
     }
   }
   app_in_process--;
+  app_outermost_return();
   if (app_pending_write_flag) {
     app_pending_write_flag = 0;
     ares_process_pending_write(app_channel);
